@@ -24,8 +24,13 @@ def files_for(kinds, maxnodes, steps, keys=("a", "b"), prios=(1, 2), level=None,
                                                  "MaxSteps": str(steps), "Bounded": S(BOUNDED), "MaxPath": str(maxpath)}, invariants=INVS, properties=PROPS, level=level)
 
 
+FALSY = False      # per replay: the valid representatives are truthy (1, 1.5, "a", ...) or FALSY (0, 0.0, "", Length(0)): a value is a value
+
+
 def concrete(kind, vclass):
     from pydsol.core.units import Length, Duration
+    if FALSY and vclass == "v1" and kind in ("int", "float", "str", "quantity"):
+        return {"int": 0, "float": 0.0, "str": "", "quantity": Length(0, "m")}[kind]
     table = {
         "int": {"v1": 1, "v2": 2, "oob": 4, "wrongtype": "x"},
         "float": {"v1": 1.5, "v2": 2.0, "oob": 3.5, "wrongtype": "x"},
@@ -82,6 +87,16 @@ def construct(kind, key, parent, dclass, ro, prio):
 
 
 def replay(ctx: Ctx, states, origin):
+    global FALSY
+    import zlib
+    FALSY = zlib.crc32(origin.encode()) % 2 == 1
+    try:
+        return _replay(ctx, states, origin)
+    finally:
+        FALSY = False
+
+
+def _replay(ctx: Ctx, states, origin):
     from pydsol.core.model import DSOLModel
     from pydsol.core.simulator import DEVSSimulatorFloat
 
@@ -263,6 +278,45 @@ def replay(ctx: Ctx, states, origin):
     return True
 
 
+def model_value_probes(ctx: Ctx):
+    """every valid value set through the model is reported back by the model, as the value it is: in particular the FALSY
+    ones (0, 0.0, "", False, a zero quantity), at the top level and inside a nested map, whatever the default is"""
+    from pydsol.core.model import DSOLModel
+    from pydsol.core.simulator import DEVSSimulatorFloat
+    from pydsol.core import parameters as P
+    from pydsol.core.units import Length
+
+    class M(DSOLModel):
+        def construct_model(self):
+            pass
+    n = 0
+    for nested in (False, True):
+        model = M(DEVSSimulatorFloat("p"))
+        parent = model.input_parameters
+        prefix = ""
+        if nested:
+            parent = P.InputParameterMap("sub", "n", 1, parent=model.input_parameters)
+            prefix = "sub."
+        P.InputParameterInt("i", "n", 2, 1, parent=parent, min_value=0, max_value=3)
+        P.InputParameterFloat("f", "n", 1.5, 2, parent=parent, min_value=0.0, max_value=3.0)
+        P.InputParameterStr("s", "n", "a", 3, parent=parent)
+        P.InputParameterBool("b", "n", True, 4, parent=parent)
+        P.InputParameterQuantity("q", "n", Length(1, "m"), 5, parent=parent, min_si=0.0, max_si=10.0)
+        for key, values in (("i", [0, 3, 1]), ("f", [0.0, 3.0, -0.0]), ("s", ["", "b", " "]), ("b", [False, True]), ("q", [Length(0, "m"), Length(10, "m")])):
+            for v in values:
+                n += 1
+                try:
+                    model.set_parameter(prefix + key, v)
+                    got = model.get_parameter(prefix + key)
+                except Exception as ex:
+                    ctx.violation(f"model_value|{key}|{type(ex).__name__}", f"model.set_parameter / get_parameter('{prefix + key}', {v!r}) raised {type(ex).__name__}: {ex}", {"key": prefix + key, "value": repr(v)})
+                    continue
+                if type(got) is not type(v) or got != v or (isinstance(v, float) and repr(got) != repr(v)):
+                    ctx.violation(f"model_value|{key}", f"model.get_parameter('{prefix + key}') = {got!r} after model.set_parameter(..., {v!r}) (a valid value)", {"key": prefix + key, "value": repr(v)})
+    ctx.evaluations += n
+    ctx.notes["model_value_probes"] = n
+
+
 def kind_of(o):
     from pydsol.core import parameters as P
     for cls, k in ((P.InputParameterMap, "map"), (P.InputParameterUnit, "unit"), (P.InputParameterSelectionList, "list"), (P.InputParameterInt, "int"),
@@ -288,6 +342,7 @@ def run(ctx: Ctx):
         files, mod, cfg = files_for(["map", "list", "bool"], 4, 5, prios=(1,))
         r = tlc.run(mod, cfg, extra_files=files, workers=16, timeout=3000)
         ctx.add_tlc("Params (map,list,bool; 4 nodes, 5 steps)", r)
+    model_value_probes(ctx)
     # edge cover of a small complete graph
     files, mod, cfg = files_for(["map", "int", "str"], 3, 3)
     nodes, edges, inits, r = tlc.dump_graph(mod, cfg, extra_files=files, workers=8, timeout=900)
